@@ -115,10 +115,15 @@ def cases(tier, seed):
             v[lv] = lay
             variants.append(v)
     variants.append([{"files": [[0], [2, 1]], "nums": [1, 3]}, {"files": [[1], [0], [2]], "nums": [7, 2, 100000]}])
+    # file numbers of different widths (as text Cell_D_100000 sorts before Cell_D_99999)
+    variants.append([scope.wide_numbers(L[-1], 1), scope.wide_numbers(L[len(L) // 2], 0)])
+    variants.append([scope.wide_numbers({"files": [[2, 0], [1]], "nums": [1, 0]}, 1), None])
     for vi, lay in enumerate(variants):
         d = dict(m)
         d.update(geo)
-        d.update({"fields": ["temp", "density", "Z", "Zvar"], "payload": "pos" if vi % 2 else "signed", "layout": lay, "seed": seed})
+        # (the kept field Z and the recipe inputs hold a few cells of -0.0: kept components are compared bit for bit)
+        pk = "pos" if vi % 2 else "signed"
+        d.update({"fields": ["temp", "density", "Z", "Zvar"], "payload": [pk, pk, pk + "+negzero", pk + "+negzero"], "layout": lay, "seed": seed})
         out.append({"kind": "user", "desc": d, "full": vi == 0 or tier == "thorough", "schedules": vi in (0, len(variants) - 1, len(variants) // 2),
                     "w": 6 if vi == 0 else 1})
     if tier == "thorough":
